@@ -99,35 +99,37 @@ def check_coroutine(ctx, rep, name, label, tbl):
         rep.fail("R19.1", "%s:layout" % label, "coroutine layout of %s not found" % name)
         return
     for v in sus:
-        key = "%s:await(%s)" % (label, v["aw"])
-        rep.check("R19.1", key + ":no-data-parked", not v["carriers"],
-                  "while %s is suspended at `%s.await` it holds %s by value: dropping the read future there (a select! tick) destroys data already removed from the connection buffer" % (label, v["aw"], v["carriers"]),
-                  v["loc"], sample={"coroutine": label, "await": v["aw"], "saved": v["saved"]})
-        for u in v["unsafe"]:
-            rep.fail("R19.1", key + ":unsafe-future:" + u.split("::")[-1],
-                     "while %s is suspended at `%s.await` it holds %s, which tokio documents as not cancel-safe (a partially written frame stays on the wire)" % (label, v["aw"], u), v["loc"])
-        rep.check("R19.1", key + ":futures-classified", not v["unknown"], "unclassified dependency futures held across `%s.await`: %s" % (v["aw"], v["unknown"]), v["loc"], nontrivial=False)
+        # leaves below this suspension (dependency futures finally awaited through workspace coroutines)
+        merged = {}
         for n in v["nested"]:
-            hop = "%s>%s" % (label, short(n))
             sub = leaves(ctx, rep, n, tbl, 1, (name,))
             if sub is None:
-                rep.fail("R19.1", "%s:layout" % hop, "coroutine layout of %s not found" % n)
+                rep.fail("R19.1", "%s:layout:%s" % (label, short(n)), "coroutine layout of %s not found" % n)
                 continue
-            merged = {}
             for lf in sub:
                 m = merged.setdefault(lf["aw"], {"carriers": set(), "unsafe": set(), "unknown": set(), "loc": lf["loc"], "saved": lf["saved"]})
                 m["carriers"] |= set(lf["carriers"])
                 m["unsafe"] |= set(lf["unsafe"])
                 m["unknown"] |= set(lf["unknown"])
-            for aw, m in sorted(merged.items()):
-                k2 = "%s:await(%s)" % (hop, aw)
-                rep.check("R19.1", k2 + ":no-data-parked", not m["carriers"],
-                          "while %s is suspended at `%s.await` it holds %s by value: dropping the read future there (a select! tick) destroys data already removed from the connection buffer" % (hop, aw, sorted(m["carriers"])),
-                          m["loc"], sample={"coroutine": hop, "await": aw, "saved": m["saved"]})
-                for u in sorted(m["unsafe"]):
-                    rep.fail("R19.1", k2 + ":unsafe-future:" + u.split("::")[-1],
-                             "while %s is suspended at `%s.await` it holds %s, which tokio documents as not cancel-safe (a partially written frame stays on the wire)" % (hop, aw, u), m["loc"])
-                rep.check("R19.1", k2 + ":futures-classified", not m["unknown"], "unclassified dependency futures held across `%s.await`: %s" % (aw, sorted(m["unknown"])), m["loc"], nontrivial=False)
+        # the suspension is named by what is finally awaited there, not by the (private) coroutines in between
+        what = "+".join(sorted(merged)) if merged else v["aw"]
+        key = "%s:holds-at(%s)" % (label, what)
+        rep.check("R19.1", key + ":no-data-parked", not v["carriers"],
+                  "while %s is suspended waiting for %s (`%s.await`) it holds %s by value: dropping the read future there (a select! tick) destroys data already removed from the connection buffer" % (label, what, v["aw"], v["carriers"]),
+                  v["loc"], sample={"coroutine": label, "await": v["aw"], "finally_awaits": what, "saved": v["saved"]})
+        for u in v["unsafe"]:
+            rep.fail("R19.1", key + ":unsafe-future:" + u.split("::")[-1],
+                     "while %s is suspended at `%s.await` it holds %s, which tokio documents as not cancel-safe (a partially written frame stays on the wire)" % (label, v["aw"], u), v["loc"])
+        rep.check("R19.1", key + ":futures-classified", not v["unknown"], "unclassified dependency futures held across `%s.await`: %s" % (v["aw"], v["unknown"]), v["loc"], nontrivial=False)
+        for aw, m in sorted(merged.items()):
+            k2 = "%s:below(%s)" % (label, aw)
+            rep.check("R19.1", k2 + ":no-data-parked", not m["carriers"],
+                      "while %s waits for %s, the coroutine(s) it awaits hold %s by value: dropping the read future there (a select! tick) destroys data already removed from the connection buffer" % (label, aw, sorted(m["carriers"])),
+                      m["loc"], sample={"coroutine": label, "await": aw, "saved": m["saved"]})
+            for u in sorted(m["unsafe"]):
+                rep.fail("R19.1", k2 + ":unsafe-future:" + u.split("::")[-1],
+                         "while %s waits for %s it (transitively) holds %s, which tokio documents as not cancel-safe (a partially written frame stays on the wire)" % (label, aw, u), m["loc"])
+            rep.check("R19.1", k2 + ":futures-classified", not m["unknown"], "unclassified dependency futures held across `%s.await`: %s" % (aw, sorted(m["unknown"])), m["loc"], nontrivial=False)
 
 
 def run(ctx, rep):
